@@ -9,6 +9,10 @@ ActsAll == {"Translate", "Scale", "MeshRotate90", "FieldRotate90", "MkField",
             "SetValidArray", "SetValidNorm", "SetValidNone", "MutateValid", "UpdateConst", "SetArray",
             "SelPlane", "SelRange", "GetSub", "GetRegion", "Pad", "Resample",
             "H5", "Ovf", "Vtk", "Xarray"}
+Scen_A2 == {"A2"}
+(* depth 3: the calls that create sharing (algebra, field[name], resample), in-place steps, and the calls that read through it *)
+Acts_d3 == {"Neg", "Add", "GetSub", "Resample", "SelRange", "Pad", "FieldRotate90", "Translate", "MutateValid", "SetValidNorm", "UpdateConst", "H5", "Diff"}
+Acts_alias == {"Neg", "GetSub", "Resample", "Translate", "FieldRotate90", "MeshRotate90"}
 TransVs_def == {<<R(4), H(-3, 2), R(1)>>}
 ScaleFs_q   == {<<R(2), R(2), R(2)>>}
 ScaleFs_all == {<<R(2), R(2), R(2)>>, <<H(1, 2), H(1, 2), H(1, 2)>>, <<R(-1), R(-1), R(-1)>>}
@@ -16,6 +20,11 @@ RotKs_q     == {1, 2}
 RotKs_all   == {1, 2, 3, -1}
 RotRefs_q   == {<<>>}
 RotRefs_all == {<<>>, <<R(0), R(1), R(0)>>}
+RotPairs_q   == {<<1, 2>>, <<2, 1>>, <<3, 1>>}
+RotPairs_all == {p \in (1 .. 3) \X (1 .. 3) : p[1] # p[2]}
+RotKs_q2     == {1}
+RotPairs_q2  == {<<1, 2>>, <<3, 1>>}
+Pad_q2       == {<<1, 0, "constant">>}
 Pad_q       == {<<1, 0, "constant">>, <<0, 1, "wrap">>}
 Pad_all     == {<<1, 0, "constant">>, <<0, 1, "wrap">>, <<1, 1, "edge">>, <<2, 0, "wrap">>}
 Masks_q     == {5}
